@@ -395,6 +395,15 @@ def skeleton(layout: str = 'v20') -> dict:
     }
 
 
+def raw_skeleton(layout: str = 'v20') -> dict:
+    """The skeleton in the *raw* form accepted by resolve_world() (what world_strategy generates)."""
+    w = skeleton(layout)
+    w.update({'verts': [], 'zero_at': 0, 'edges': [], 'hdr': False, 'faceids_mode': 'full', 'model_refs': []})
+    for k in ('hdrfaces', 'faceids'):
+        del w[k]
+    return w
+
+
 def _f32(x: float) -> float:
     return struct.unpack('<f', struct.pack('<f', x))[0]
 
@@ -884,18 +893,40 @@ def build_bsp(w: dict, encoded: Optional[tuple] = None) -> bytes:
 # ----------------------------------------------------------------------------------------------------------------
 # Hypothesis strategies for raw worlds
 
+def biased_int(lo: int, hi: int, specials: list):
+    """One Hypothesis draw: 1 in 4 a boundary value from `specials`, else uniform in [lo, hi] (shrinks to specials[0])."""
+    from hypothesis import strategies as st
+    span = hi - lo + 1
+    ns = len(specials)
+    return st.integers(0, 4 * max(span, ns) - 1).map(
+        lambda v: specials[(v >> 2) % ns] if (v & 3) == 0 else lo + (v >> 2) % span)
+
+
+F32_MAX = 3.4028234663852886e38
+F32_TINY = 1.401298464324817e-45
+
+
+def f32_strategy(signed_zero: bool = True):
+    """float32-representable finite floats: mostly cheap dyadic rationals, some arbitrary float32, some extremes."""
+    from hypothesis import strategies as st
+    specials = [0.0, 1.0, -1.0, 0.5, 16384.0, -99999.0, F32_MAX, -F32_MAX, F32_TINY, 1e-10 * 0 + 1.1754943508222875e-38]
+    if signed_zero:
+        specials.append(-0.0)
+    return st.one_of(
+        st.integers(-(1 << 22), 1 << 22).map(lambda i: i / 64.0),
+        st.integers(-(1 << 22), 1 << 22).map(lambda i: i / 64.0),
+        st.floats(-1e9, 1e9, allow_nan=False, allow_infinity=False, width=32).filter(lambda x: signed_zero or x != 0.0 or str(x) == '0.0'),
+        st.sampled_from(specials),
+    )
+
+
 def world_strategy(tier: str, layouts: Optional[list[str]] = None, rich: bool = True):
     from hypothesis import strategies as st
     from vlib import gens
 
     big = tier != 'quick'
     mx = 6 if big else 4
-    def biased(lo, hi, specials):
-        """One draw: 1 in 4 a boundary value, else uniform in [lo, hi] (shrinks towards specials[0])."""
-        span = hi - lo + 1
-        ns = len(specials)
-        return st.integers(0, 4 * max(span, ns) - 1).map(
-            lambda v: specials[(v >> 2) % ns] if (v & 3) == 0 else lo + (v >> 2) % span)
+    biased = biased_int
 
     u16 = biased(0, 0xFFFF, [0, 1, 2, 255, 256, 0x7FFF, 0xFFFF])
     i16 = biased(-0x8000, 0x7FFF, [0, 1, -1, 0x7FFF, -0x8000])
@@ -1048,11 +1079,12 @@ def _fhex(x: float) -> str:
 
 
 class _Canon:
-    def __init__(self, drop, rename) -> None:
+    def __init__(self, drop, rename, by_value=frozenset()) -> None:
         self.ids: dict[int, int] = {}
         self.keep: list[Any] = []
         self.drop = drop
         self.rename = rename
+        self.by_value = by_value
 
     def number(self, o: Any) -> tuple[bool, int]:
         k = id(o)
@@ -1101,10 +1133,13 @@ class _Canon:
                     int(o.times), int(bool(o.comma_sep))]
         if name == 'VMF':
             return ['VMF', self.walk(o.spawn), [self.walk(e) for e in o.entities]]
-        # ---- identity-carrying objects
-        new, n = self.number(o)
-        if not new:
-            return ['R', n]
+        # ---- identity-carrying objects (classes listed in by_value are expanded at every occurrence instead)
+        if name in self.by_value:
+            n = -1
+        else:
+            new, n = self.number(o)
+            if not new:
+                return ['R', n]
         if name == 'Entity':
             kv = sorted([k, v] for k, v in o.items())
             return ['O', n, 'Entity', kv, [self.walk(x) for x in o.outputs]]
@@ -1134,23 +1169,24 @@ class _Canon:
             if id(x) in self.ids:
                 known.append((self.ids[id(x)], x))
             else:
-                solo = _Canon(self.drop, self.rename)
+                solo = _Canon(self.drop, self.rename, self.by_value)
                 fresh.append((json.dumps(solo.walk(x), sort_keys=True), x))
         known.sort(key=lambda t: t[0])
         fresh.sort(key=lambda t: t[0])
         return [self.walk(x) for _, x in known] + [self.walk(x) for _, x in fresh]
 
 
-def canon(obj: Any, drop=(), rename: Optional[dict] = None) -> Any:
+def canon(obj: Any, drop=(), rename: Optional[dict] = None, by_value=()) -> Any:
     """Canonical JSON-able form of the object graph reachable from `obj`.
 
     attrs instances, Edge/RevEdge and Entity objects are numbered in first-visit order and later visits emit
     ['R', n], so two graphs have equal canonical forms iff they are isomorphic as rooted, ordered graphs with equal
     leaf values.  Vec/Angle are plain values, floats are compared bit-exactly, bool == int, tuples == lists,
     sets are visited in (already-numbered first, then by stand-alone form) order.
-    `drop`: {(class name, field)} to leave out; `rename`: {(class name, field): fn} applied to the field value.
+    `drop`: {(class name, field)} to leave out; `rename`: {(class name, field): fn} applied to the field value;
+    `by_value`: class names whose instances are compared structurally (no identity; must not lie on a cycle).
     """
-    return _Canon(set(drop), rename or {}).walk(obj)
+    return _Canon(set(drop), rename or {}, frozenset(by_value)).walk(obj)
 
 
 def first_diff(a: Any, b: Any, path: str = '') -> Optional[str]:
